@@ -118,7 +118,7 @@ def main(tier, seed):
             chk.sample({"program": "p%d" % r["idx"], "method": api.spec.method_sig(s["owner"], s["m"]), "events": [l for _, l in s["expect"]]})
         rej = [s for r2 in ok for s in r2["script"].steps if s.get("rejected")][:1]
         for s in rej:
-            chk.sample({"rejected_call": s["m"].abi_name, "bad_argument": {k: v["data"].hex() for k, v in s["args"].items() if isinstance(v, dict) and "data" in v}, "events": [l for _, l in s["expect"]]})
+            chk.sample({"rejected_call": s["m"].abi_name, "bad_argument": {k: (v["data"].hex() if isinstance(v["data"], (bytes, bytearray)) else list(v["data"])) for k, v in s["args"].items() if isinstance(v, dict) and "data" in v}, "events": [l for _, l in s["expect"]]})
     chk.assumptions = ["x86-64, g++ 12 / libstdc++", "slices of strings excluded from the main workload (known finding F16), probed separately"]
     whole = None
     if skipped * 2 > len(results):
